@@ -996,7 +996,6 @@ class UTPM(Ring, RawAlgorithmsMixIn):
     @classmethod
     def minimum(cls, x, y):
         # FIXME: this typechecking is probably not flexible enough
-        # FIXME: also add pullback
         if isinstance(x, UTPM) and isinstance(y, UTPM):
             return UTPM(cls._minimum(x.data, y.data))
         elif isinstance(x, numpy.ndarray) and isinstance(y, numpy.ndarray):
@@ -1008,7 +1007,6 @@ class UTPM(Ring, RawAlgorithmsMixIn):
     @classmethod
     def maximum(cls, x, y):
         # FIXME: this typechecking is probably not flexible enough
-        # FIXME: also add pullback
         if isinstance(x, UTPM) and isinstance(y, UTPM):
             return UTPM(cls._maximum(x.data, y.data))
         elif isinstance(x, numpy.ndarray) and isinstance(y, numpy.ndarray):
@@ -1016,6 +1014,30 @@ class UTPM(Ring, RawAlgorithmsMixIn):
         else:
             raise NotImplementedError(
                     'this combination of types is not yet implemented')
+
+    @classmethod
+    def pb_minimum(cls, zbar, x, y, z, out=None):
+        if out is None:
+            xbar, ybar = x.zeros_like(), y.zeros_like()
+        else:
+            xbar, ybar = out
+        # the branch taken by _minimum: x where x_0 <= y_0, else y
+        xmask = numpy.less_equal(x.data[0], y.data[0])
+        xbar.data[...] += xmask * zbar.data
+        ybar.data[...] += (1 - xmask) * zbar.data
+        return (xbar, ybar)
+
+    @classmethod
+    def pb_maximum(cls, zbar, x, y, z, out=None):
+        if out is None:
+            xbar, ybar = x.zeros_like(), y.zeros_like()
+        else:
+            xbar, ybar = out
+        # the branch taken by _maximum: x where x_0 >= y_0, else y
+        xmask = numpy.greater_equal(x.data[0], y.data[0])
+        xbar.data[...] += xmask * zbar.data
+        ybar.data[...] += (1 - xmask) * zbar.data
+        return (xbar, ybar)
 
     @classmethod
     def real(cls, x):
